@@ -50,6 +50,24 @@ def C03(rep, prog, tier):
         if cls:
             be = mcsops.Backend(name, cls, lex=False)
             mcsops.w_rec(rep, ex, be)
+            mcsops.w_entry(rep, ex, be, strict=True, extended=False)
+    wrappers.shortcut_guard(rep, ex)
+    wrappers.shortcut_dominance(rep, ex)
+    part.check_all(rep, ex)
+
+
+def C04(rep, prog, tier):
+    rep.explanation = ("C04: lexicographic inference, both back-ends: soft/hard items, strict short cuts, cardinality decision "
+                       "table (evaluated over all small cardinalities), tie quantifier by two-witness instantiation, tie constraints")
+    ex = Explorer(prog, rep)
+    table = wrappers.dispatch(rep, ex)
+    for key, name in ((("lex_inf", False), "rc2"), (("lex_inf", True), "z3")):
+        cls = _class_of(table, key)
+        if cls:
+            be = mcsops.Backend(name, cls, lex=True)
+            mcsops.lex_rec(rep, ex, be)
+            mcsops.lex_ties(rep, ex, be)
+            mcsops.w_entry(rep, ex, be, strict=True, extended=False, prefix="LEX", n_objects=2)
     wrappers.shortcut_guard(rep, ex)
     wrappers.shortcut_dominance(rep, ex)
     part.check_all(rep, ex)
@@ -66,4 +84,4 @@ def C06(rep, prog, tier):
     wrappers.shortcut_dominance(rep, ex)
 
 
-CHECKS = {"C01": C01, "C02": C02, "C03": C03, "C06": C06}
+CHECKS = {"C01": C01, "C02": C02, "C03": C03, "C04": C04, "C06": C06}
